@@ -220,12 +220,68 @@ func VerifC10CodecSinglePercent() {
 	}
 }
 
+// VerifC10ParseSinglePercent: the parser states apply the same "existing escapes stay untouched, a
+// stray '%' is data" rule as the string encoder: '%' followed by two ARBITRARY code points (all of
+// Unicode, symbolic) in a special path, a non-special path, an opaque path, a query and a fragment,
+// with and without the percent-encode-single-percent-sign option. Only '%' + two ASCII hex digits is
+// an escape; with the option a stray '%' in a path or opaque path becomes %25, everywhere else and
+// without the option it is copied.
+func VerifC10ParseSinglePercent() {
+	r1 := rune(vnd.U32())
+	r2 := rune(vnd.U32())
+	vnd.Assume(isScalar(r1) && isScalar(r2))
+	// code points with a syntactic role at this position are other properties' business
+	for _, r := range []rune{r1, r2} {
+		vnd.Assume(r != '/' && r != '\\' && r != '?' && r != '#' && r != '\t' && r != '\n' && r != '\r' && r != '%')
+	}
+	vnd.Assume(!(r1 == '2' && (r2 == 'e' || r2 == 'E'))) // %2e is a dot segment
+	ctx := vnd.Pick(5)
+	pre := []string{"http://h/", "a://h/", "a:", "http://h/?", "http://h/#"}[ctx]
+	which := []int{4, 4, 0, 3, 1}[ctx]
+	single := vnd.Bool()
+	var p Parser
+	if single {
+		p = NewParser(WithPercentEncodeSinglePercentSign())
+	} else {
+		p = NewParser()
+	}
+	u, err := p.Parse(pre + "%" + string(r1) + string(r2) + "z")
+	if err != nil {
+		vnd.Fail("a '%' followed by two code points in a path/query/fragment must not make parsing fail")
+		return
+	}
+	var got string
+	switch ctx {
+	case 0, 1:
+		got = u.Pathname()[1:]
+	case 2:
+		got = u.Pathname()
+	case 3:
+		got = u.Query()
+	default:
+		got = u.Fragment()
+	}
+	vnd.Observe("got", got)
+	isEscape := isHexRune(r1) && isHexRune(r2)
+	vnd.Cover("escape-kept", isEscape)
+	vnd.Cover("stray-percent-nonascii", !isEscape && r1 > 0x7f)
+	want := "%"
+	if single && !isEscape && ctx <= 2 {
+		want = "%25"
+	}
+	want += specEncodeRune(r1, specSet(which, r1)) + specEncodeRune(r2, specSet(which, r2)) + "z"
+	if got != want {
+		vnd.Fail("parser state: '%' + two code points: existing escapes must stay, a stray '%' is data (copied, or %25 under percent-encode-single-percent-sign in paths)")
+	}
+}
+
 func isHexRune(r rune) bool {
 	return (r >= '0' && r <= '9') || (r >= 'a' && r <= 'f') || (r >= 'A' && r <= 'F')
 }
 
 func init() {
 	verifHarnesses["VerifC10CodecSinglePercent"] = VerifC10CodecSinglePercent
+	verifHarnesses["VerifC10ParseSinglePercent"] = VerifC10ParseSinglePercent
 	verifHarnesses["VerifC10SetTables"] = VerifC10SetTables
 	verifHarnesses["VerifC10Derive"] = VerifC10Derive
 	verifHarnesses["VerifC10EncodeRune"] = VerifC10EncodeRune
